@@ -140,7 +140,7 @@ func (h UnprefixedHash) MarshalText() ([]byte, error) {
 // CoinSymbol represents the 10 byte coin symbol.
 type CoinSymbol [CoinSymbolLength]byte
 
-func (c CoinSymbol) String() string { return string(bytes.Trim(c[:], "\x00")) }
+func (c CoinSymbol) String() string { return string(bytes.TrimRight(c[:], "\x00")) }
 
 // Bytes returns the bytes representation of the underlying CoinSymbol
 func (c CoinSymbol) Bytes() []byte { return c[:] }
